@@ -155,6 +155,13 @@ class extract_visitor(NodeVisitor):
             name.flow = self.flow  # type: ignore[attr-defined]
             self.flow.add_name(AssignedName(name.id, eend, np(name), node.value))
         self.visit(node.target)
+        if (node.value and isinstance(name, AstName)
+                and not isinstance(self.flow.scope, FuncScope)):
+            # at module and class level the annotation of 'x: ann = value' is
+            # evaluated after the assignment, although it precedes the value
+            # in the text: it sees everything bound so far
+            self.flow = self.make_flow('annotation', [self.flow])
+            self.flow.scope.flow = self.flow
         self.visit(node.annotation)
 
     def visit_AugAssign(self, node):
